@@ -32,8 +32,8 @@ PROPS['C13'] = dict(
 NOT_CLAIMED = {}
 
 PROPS['C20'] = dict(
-    lean_targets=['AnonModel.Props.C20'],
-    required_theorems=['C20_uri_iff', 'C20_legacyDid_iff', 'C20_legacySchema_iff', 'C20_legacyCredDef_iff', 'C20_legacyRevReg_iff',
+    lean_targets=['AnonModel.Props.C20', 'AnonModel.Props.GenConstsC20'],
+    required_theorems=['C20_regex_literals_unchanged', 'C20_max_attributes_unchanged', 'C20_uri_iff', 'C20_legacyDid_iff', 'C20_legacySchema_iff', 'C20_legacyCredDef_iff', 'C20_legacyRevReg_iff',
                        'C20_id_valid_iff', 'C20_schema_valid_iff', 'C20_credreq_valid_iff'],
     families=[dict(name='c20')],
     default_dir='exact',
@@ -59,8 +59,8 @@ PROPS['C08'] = dict(
 )
 
 PROPS['C16'] = dict(
-    lean_targets=['AnonModel.Props.C16'],
-    required_theorems=['C16_parse_print_parse', 'C16_parse_ok_iff_wellformed', 'C16_legacy_array', 'C16_legacy_meaning', 'C16_empty_forms',
+    lean_targets=['AnonModel.Props.C16', 'AnonModel.Props.GenConstsC16'],
+    required_theorems=['C16_internal_tag_literal_unchanged', 'C16_qualifiable_tags_unchanged', 'C16_parse_print_parse', 'C16_parse_ok_iff_wellformed', 'C16_legacy_array', 'C16_legacy_meaning', 'C16_empty_forms',
                        'C16_empty_is_unrestricted', 'C16_validate_v1', 'C16_validate_v2', 'C16_reject_multikey_object', 'C16_reject_unknown_operator'],
     families=[dict(name='c16')],
     default_dir='exact',
@@ -98,8 +98,8 @@ PROPS['C10'] = dict(
 )
 
 PROPS['C19'] = dict(
-    lean_targets=['AnonModel.Props.C19'],
-    required_theorems=['C19_content_layout', 'C19_read_back', 'C19_name_is_hash', 'C19_final_atomic', 'C19_temp_is_prefix',
+    lean_targets=['AnonModel.Props.C19', 'AnonModel.Props.GenConstsC19'],
+    required_theorems=['C19_version_tag_unchanged', 'C19_content_layout', 'C19_read_back', 'C19_name_is_hash', 'C19_final_atomic', 'C19_temp_is_prefix',
                        'C19_no_temp_after_error', 'C19_success_publishes', 'C19_temp_ne_final'],
     families=[dict(name='c19')],
     default_dir='exact',
@@ -111,8 +111,8 @@ PROPS['C19'] = dict(
 )
 
 PROPS['C18'] = dict(
-    lean_targets=['AnonModel.Props.C18'],
-    required_theorems=['C18_inv', 'C18_handles_unique_never_reused', 'C18_linearizable', 'C18_resolves_until_freed', 'C18_wrong_type_errors',
+    lean_targets=['AnonModel.Props.C18', 'AnonModel.Props.GenConstsC18'],
+    required_theorems=['C18_store_sources_unchanged', 'C18_inv', 'C18_handles_unique_never_reused', 'C18_linearizable', 'C18_resolves_until_freed', 'C18_wrong_type_errors',
                        'C18_snapshot_survives_free', 'C18_checker_sound'],
     families=[dict(name='c18')],
     default_dir='exact',
@@ -149,8 +149,8 @@ def ext_ffi_check(workdir, tier, seed, sh, vh):
 
 
 PROPS['C17'] = dict(
-    lean_targets=['AnonModel.Props.C17'],
-    required_theorems=['C17_all_wrapped', 'C17_all_out_pointers_guarded', 'C17_all_result_params_checked', 'C17_no_result_functions', 'C17_from_json_template_guarded'],
+    lean_targets=['AnonModel.Props.C17', 'AnonModel.Props.GenConstsC17'],
+    required_theorems=['C17_handle_resolution_sources_unchanged', 'C17_optional_stale_rejected', 'C17_optional_absent_iff', 'C17_optional_live_resolves', 'C17_all_wrapped', 'C17_all_out_pointers_guarded', 'C17_all_result_params_checked', 'C17_no_result_functions', 'C17_from_json_template_guarded'],
     families=[dict(name='c17', external='ext_ffi_check')],
     default_dir='exact',
     rule="table of all exported entry points regenerated from src/ffi/** (51 today): theorems by decide. Dynamic: for every error-code entry point, each result pointer null in turn and 9 malformed argument modes (all-empty, unknown / freed / wrong-typed handles incl. handle lists, non-UTF-8 / null strings, null list members, garbage byte buffers, huge counts), each call in a forked child (abort = signal); error slot semantics; ~70 verifications (honest and attack scenarios, both formats, with revocation) decided by the native API and repeated through the C ABI; a complete issue-present-verify flow made through the C ABI and verified by both APIs (incl. a tampered copy); create_schema and seven from_json->get_json round trips byte/JSON-identical",
